@@ -1,7 +1,7 @@
 """spyne/protocol/{json,yaml,msgpack}.py + spyne/protocol/dictdoc/hier.py  ->  Gen/DictLeaf.v   (C04)
 
-Three places where one token of the source decides whether user code can be
-handed a value of an undeclared type by the dict-document protocols:
+Places where one token of the source decides whether user code can be handed
+a value of an undeclared type by the dict-document protocols:
 
   * ``_ret_bool``: ``value in (True, False)`` (an equality test: 1, 0, 1.0, 0.0
     pass) or ``value is True or value is False``;
@@ -16,22 +16,23 @@ handed a value of an undeclared type by the dict-document protocols:
   * (decides no type, kept for the fidelity of the model) whether MessagePack's
     ``integer_from_bytes`` refuses lists and maps.
 
-Each function must be, statement for statement, one of the two shapes known
-here (argument names normalised); anything else raises TranslateError.  The
-handler registrations the hand-written model relies on (which of these
-functions reads Integer / Double / Boolean in which protocol) and the
-``if doc is None: return []`` opening of ``_doc_to_object`` are checked too.
+The functions are compared SEMANTICALLY with the reference variants written
+below: both are run by the symbolic executor of ``symexec.py`` and must have
+the same decision table (outcome for every valuation of the tests they make),
+so renamed locals, guard clauses vs if/else, reordered / re-spelt class tuples
+(``six.text_type`` vs ``str``, ``tuple({...})`` vs a tuple literal), comments
+and messages do not matter; a function that matches no reference variant
+raises TranslateError (fail closed).  The handler registrations the
+hand-written model relies on and the ``if doc is None: return []`` opening of
+``_doc_to_object`` are checked too.
 """
 import ast, os, warnings
 from .pyexpr import TranslateError, find_function
+from . import symexec as SX
 
 
 def _dump(n):
     return ast.dump(n, annotate_fields=False)
-
-
-def _body(src):
-    return [_dump(s) for s in ast.parse(src).body]
 
 
 def _strip_doc(body):
@@ -39,61 +40,40 @@ def _strip_doc(body):
                                     and isinstance(s.value.value, str))]
 
 
-class _Rename(ast.NodeTransformer):
-    def __init__(self, m):
-        self.m = m
-
-    def visit_Name(self, n):
-        return ast.copy_location(ast.Name(id=self.m.get(n.id, n.id), ctx=n.ctx), n)
+REF_CONSTS = SX.module_consts(ast.parse("NON_NUMBER_TYPES = (list, dict, str, bytes)\n"))
 
 
-def fn_body(fn, argnames):
-    """dumps of the statements of fn, its positional arguments renamed to argnames"""
-    names = [a.arg for a in fn.args.args]
-    if len(names) != len(argnames) or fn.args.vararg or fn.args.kwarg or fn.args.kwonlyargs:
-        raise TranslateError('%s: unexpected signature %r' % (fn.name, names))
-    m = dict(zip(names, argnames))
-    return [_dump(_Rename(m).visit(s)) for s in _strip_doc(fn.body)]
+def _fn(src):
+    return ast.parse(src).body[0]
 
 
 RET_BOOL = {
-    'false': _body("if value is None or value in (True, False):\n    return value\nraise ValidationError(value)\n"),
-    'true': _body("if value is None or value is True or value is False:\n    return value\nraise ValidationError(value)\n"),
+    'false': _fn("def f(self, cls, value):\n    if value is None or value in (True, False):\n        return value\n    raise ValidationError(value)\n"),
+    'true': _fn("def f(self, cls, value):\n    if value is None or value is True or value is False:\n        return value\n    raise ValidationError(value)\n"),
 }
-
-RET_NUMBER_PLAIN = _body(
-    "if isinstance(value, NON_NUMBER_TYPES):\n    raise ValidationError(value)\n"
-    "if value in (True, False):\n    return int(value)\n"
-    "return value\n")
-RET_NUMBER_INT = _body(
-    "if isinstance(value, NON_NUMBER_TYPES):\n    raise ValidationError(value)\n"
-    "if value in (True, False):\n    return int(value)\n"
-    "if isinstance(value, float) and issubclass(cls, Integer):\n"
-    "    if not value.is_integer():\n        raise ValidationError(value)\n"
-    "    return int(value)\n"
-    "return value\n")
-
-_MP_HEAD = ("if isinstance(value, (six.text_type, six.binary_type)):\n"
-            "    return super(MessagePackDocument, self).integer_from_bytes(cls, value)\n")
-_MP_NONNUM = "if isinstance(value, NON_NUMBER_TYPES):\n    raise ValidationError(value)\n"
-_MP_FLOAT = ("if isinstance(value, float):\n"
-             "    if not value.is_integer():\n        raise ValidationError(value)\n"
-             "    return int(value)\n")
-# (int_from_float, refuses_containers) -> body
-MP_INT = {
-    ('false', 'false'): _body(_MP_HEAD + "return value\n"),
-    ('true', 'false'): _body(_MP_HEAD + _MP_FLOAT + "return value\n"),
-    ('false', 'true'): _body(_MP_HEAD + _MP_NONNUM + "return value\n"),
-    ('true', 'true'): _body(_MP_HEAD + _MP_NONNUM + _MP_FLOAT + "return value\n"),
+_RN_HEAD = ("def f(self, cls, value):\n    if isinstance(value, NON_NUMBER_TYPES):\n        raise ValidationError(value)\n"
+            "    if value in (True, False):\n        return int(value)\n")
+RET_NUMBER = {
+    'false': _fn(_RN_HEAD + "    return value\n"),
+    'true': _fn(_RN_HEAD + "    if isinstance(value, float) and issubclass(cls, Integer):\n"
+                           "        if not value.is_integer():\n            raise ValidationError(value)\n"
+                           "        return int(value)\n    return value\n"),
 }
-
+_MP_HEAD = ("def f(self, cls, value):\n    if isinstance(value, (str, bytes)):\n"
+            "        return super(MessagePackDocument, self).integer_from_bytes(cls, value)\n")
+_MP_NONNUM = "    if isinstance(value, NON_NUMBER_TYPES):\n        raise ValidationError(value)\n"
+_MP_FLOAT = ("    if isinstance(value, float):\n        if not value.is_integer():\n            raise ValidationError(value)\n"
+             "        return int(value)\n")
+MP_INT = {     # (int_from_float, refuses_containers)
+    ('false', 'false'): _fn(_MP_HEAD + "    return value\n"),
+    ('true', 'false'): _fn(_MP_HEAD + _MP_FLOAT + "    return value\n"),
+    ('false', 'true'): _fn(_MP_HEAD + _MP_NONNUM + "    return value\n"),
+    ('true', 'true'): _fn(_MP_HEAD + _MP_NONNUM + _MP_FLOAT + "    return value\n"),
+}
 COMPLEX_BRANCH = {
-    'false': _body("retval = self._doc_to_object(ctx, cls, inst, validator)\n"),
-    'true': _body("if inst is None:\n    retval = None\n"
-                  "else:\n    retval = self._doc_to_object(ctx, cls, inst, validator)\n"),
+    'false': ast.parse("retval = self._doc_to_object(ctx, cls, inst, validator)\n").body,
+    'true': ast.parse("if inst is None:\n    retval = None\nelse:\n    retval = self._doc_to_object(ctx, cls, inst, validator)\n").body,
 }
-
-NON_NUMBER = _dump(ast.parse("NON_NUMBER_TYPES = tuple({list, dict, six.text_type, six.binary_type})").body[0])
 
 HANDLERS = {
     'json': ('JsonDocument', {'Double': '_ret_number', 'Boolean': '_ret_bool', 'Integer': '_ret_number'}),
@@ -102,11 +82,18 @@ HANDLERS = {
 }
 
 
-def which(body, table, what):
-    for flag, tmpl in table.items():
-        if body == tmpl:
-            return flag
-    raise TranslateError('%s: body is none of the recognised shapes' % what)
+def fn_table(fn, consts, helpers=None):
+    m = SX.Machine(helpers=helpers or {}, consts=consts)
+    body, env = SX.fn_program(fn)
+    return m.table(body, env)
+
+
+def which_fn(fn, consts, helpers, refs, what):
+    t = fn_table(fn, consts, helpers)
+    hits = [flag for flag, ref in refs.items() if SX.equivalent(t, fn_table(ref, REF_CONSTS))]
+    if len(hits) != 1:
+        raise TranslateError('%s: behaves like none of the recognised variants' % what)
+    return hits[0]
 
 
 def check_handlers(tree, clsname, want, what):
@@ -127,36 +114,42 @@ def check_handlers(tree, clsname, want, what):
         raise TranslateError('%s: _from_unicode_handlers registrations are %r, expected %r' % (what, got, want))
 
 
+def _parse(path):
+    with warnings.catch_warnings():
+        warnings.simplefilter('ignore')
+        return ast.parse(open(path).read())
+
+
 def generate(repo):
     flags = {}
     for mod, (clsname, want) in HANDLERS.items():
-        path = os.path.join(repo, 'spyne/protocol/%s.py' % mod)
-        with warnings.catch_warnings():
-            warnings.simplefilter('ignore')
-            tree = ast.parse(open(path).read())
+        tree = _parse(os.path.join(repo, 'spyne/protocol/%s.py' % mod))
         check_handlers(tree, clsname, want, mod)
-        if sum(1 for s in tree.body if _dump(s) == NON_NUMBER) != 1:
-            raise TranslateError('%s: NON_NUMBER_TYPES is not the expected tuple' % mod)
-        b = which(fn_body(find_function(tree, [clsname, '_ret_bool']), ['self', 'cls', 'value']), RET_BOOL, mod + '._ret_bool')
-        rn = fn_body(find_function(tree, [clsname, '_ret_number']), ['self', 'cls', 'value'])
+        consts = SX.module_consts(tree)
+        helpers = SX.class_helpers(tree, clsname)
+        b = which_fn(find_function(tree, [clsname, '_ret_bool']), consts, helpers, RET_BOOL, mod + '._ret_bool')
+        rn = find_function(tree, [clsname, '_ret_number'])
         if mod == 'msgpack':
-            if rn != RET_NUMBER_PLAIN:
-                raise TranslateError('msgpack._ret_number: body is not the recognised shape')
-            i, c = which(fn_body(find_function(tree, [clsname, 'integer_from_bytes']), ['self', 'cls', 'value']), MP_INT,
-                         'msgpack.integer_from_bytes')
+            if which_fn(rn, consts, helpers, {'plain': RET_NUMBER['false'], 'int': RET_NUMBER['true']}, 'msgpack._ret_number') != 'plain':
+                raise TranslateError('msgpack._ret_number is not the plain number reader')
+            i, c = which_fn(find_function(tree, [clsname, 'integer_from_bytes']), consts, helpers, MP_INT, 'msgpack.integer_from_bytes')
         else:
-            i = which(rn, {'false': RET_NUMBER_PLAIN, 'true': RET_NUMBER_INT}, mod + '._ret_number')
-            c = 'true'                      # _ret_number refuses NON_NUMBER_TYPES in both shapes
+            i = which_fn(rn, consts, helpers, RET_NUMBER, mod + '._ret_number')
+            c = 'true'                      # _ret_number refuses NON_NUMBER_TYPES in both variants
         flags[mod] = (b, i, c)
     # hier.py
-    path = os.path.join(repo, 'spyne/protocol/dictdoc/hier.py')
-    tree = ast.parse(open(path).read())
+    tree = _parse(os.path.join(repo, 'spyne/protocol/dictdoc/hier.py'))
     fdv = find_function(tree, ['HierDictDocument', '_from_dict_value'])
     test = _dump(ast.parse('issubclass(cls, ComplexModelBase)', mode='eval').body)
     hits = [n for n in ast.walk(fdv) if isinstance(n, ast.If) and _dump(n.test) == test]
     if len(hits) != 1:
         raise TranslateError('hier._from_dict_value: expected exactly one "issubclass(cls, ComplexModelBase)" branch')
-    nul = which([_dump(s) for s in hits[0].body], COMPLEX_BRANCH, 'hier._from_dict_value (ComplexModelBase branch)')
+    m = SX.Machine(consts=SX.module_consts(tree), observe=('retval', 'cls', 'inst'))
+    t = m.table(hits[0].body, {})
+    nul = [f for f, ref in COMPLEX_BRANCH.items() if SX.equivalent(t, m.table(ref, {}))]
+    if len(nul) != 1:
+        raise TranslateError('hier._from_dict_value (ComplexModelBase branch): behaves like none of the recognised variants')
+    nul = nul[0]
     # statement order at the head of _from_dict_value: unwrap XmlAttribute / XmlData, then validate
     head = [_dump(x) for x in _strip_doc(fdv.body)[:2]]
     unwrap = _dump(ast.parse("if issubclass(cls, XmlModifier):\n    cls = cls.type\n").body[0])
@@ -181,6 +174,7 @@ def generate(repo):
             'spyne/protocol/dictdoc/hier.py -- do not edit *)\n'
             'From SpyneV Require Import C04.Guard C04.DictModel.\n\n'
             '(** per protocol: _ret_bool tests identity; floats meant for Integer members are converted or refused;\n'
-            '    a null ComplexModel / Array member is read as None; lists and maps are refused for Integer members *)\n'
+            '    a null ComplexModel / Array member is read as None; XmlAttribute / XmlData unwrapped before validate();\n'
+            '    lists and maps are refused for Integer members *)\n'
             'Definition dict_leaf (p : proto) : leaf_cfg :=\n  match p with\n%s\n  end.\n' % '\n'.join(rows))
     return {'DictLeaf.v': text}
